@@ -131,6 +131,12 @@ fn marlin(ctx: &mut Ctx, rng: &mut ChaCha20Rng) {
                 t.comms[i].1 = Some(b2);
                 faults.push((format!("degree-bound:{}", i), t));
             }
+            let enforced: Vec<usize> = t0.vk.degree_bounds_and_shift_powers.as_ref().map(|l| l.iter().map(|(b, _)| *b).collect()).unwrap_or_default();
+            if let Some(dm) = (1..=t0.vk.max_degree).find(|b| !enforced.contains(b)) {
+                let mut t = t0.clone();
+                t.comms[i].1 = Some(dm);
+                faults.push((format!("degree-bound-unenforced:{}", i), t));
+            }
             let mut t = t0.clone();
             if let Some(l) = t.vk.degree_bounds_and_shift_powers.as_mut() {
                 let d = t0.comms[i].1.unwrap();
@@ -143,6 +149,14 @@ fn marlin(ctx: &mut Ctx, rng: &mut ChaCha20Rng) {
         let mut t = t0.clone();
         t.vals[i] += Fr::rand(rng) + Fr::one();
         faults.push((format!("value:{}", i), t));
+    }
+    if n >= 2 {
+        // two values changed by (d, -d): a false claim unless the two opening challenges coincide
+        let d = Fr::rand(rng) + Fr::one();
+        let mut t = t0.clone();
+        t.vals[0] += d;
+        t.vals[1] -= d;
+        faults.push(("value-pair-cancelling".into(), t));
     }
     let mut t = t0.clone();
     t.z += Fr::one();
@@ -285,6 +299,13 @@ fn sonic(ctx: &mut Ctx, rng: &mut ChaCha20Rng) {
             let mut t = t0.clone();
             t.comms[i].1 = None;
             faults.push((format!("degree-bound-removed:{}", i), t));
+            // a bound the verifier key holds no element for
+            let enforced: Vec<usize> = t0.vk.degree_bounds_and_neg_powers_of_h.as_ref().map(|l| l.iter().map(|(b, _)| *b).collect()).unwrap_or_default();
+            if let Some(dm) = (1..=t0.vk.max_degree).find(|b| !enforced.contains(b) && *b != d) {
+                let mut t = t0.clone();
+                t.comms[i].1 = Some(dm);
+                faults.push((format!("degree-bound-unenforced:{}", i), t));
+            }
             let mut t = t0.clone();
             if let Some(l) = t.vk.degree_bounds_and_neg_powers_of_h.as_mut() {
                 if let Some(e) = l.iter_mut().find(|(b, _)| *b == d) {
@@ -293,6 +314,13 @@ fn sonic(ctx: &mut Ctx, rng: &mut ChaCha20Rng) {
             }
             faults.push((format!("vk-neg-power:{}", i), t));
         }
+    }
+    if n >= 2 {
+        let d = Fr::rand(rng) + Fr::one();
+        let mut t = t0.clone();
+        t.vals[0] += d;
+        t.vals[1] -= d;
+        faults.push(("value-pair-cancelling".into(), t));
     }
     let mut t = t0.clone();
     t.z += Fr::one();
@@ -405,6 +433,13 @@ fn pst13(ctx: &mut Ctx, rng: &mut ChaCha20Rng) {
         let mut t = t0.clone();
         t.vals[i] += Fr::rand(rng) + Fr::one();
         faults.push((format!("value:{}", i), t));
+    }
+    if t0.comms.len() >= 2 {
+        let d = Fr::rand(rng) + Fr::one();
+        let mut t = t0.clone();
+        t.vals[0] += d;
+        t.vals[1] -= d;
+        faults.push(("value-pair-cancelling".into(), t));
     }
     for j in 0..nv {
         let mut t = t0.clone();
@@ -519,6 +554,13 @@ fn ipa(ctx: &mut Ctx, rng: &mut ChaCha20Rng) {
                 faults.push((format!("degree-bound:{}", i), t));
             }
         }
+    }
+    if t0.comms.len() >= 2 {
+        let d = JFr::rand(rng) + JFr::one();
+        let mut t = t0.clone();
+        t.vals[0] += d;
+        t.vals[1] -= d;
+        faults.push(("value-pair-cancelling".into(), t));
     }
     let mut t = t0.clone();
     t.z += JFr::one();
